@@ -238,8 +238,9 @@ def r4(chk, ctx):
            message="a timer that outlives its request must not report a timeout")
     ct = tdm.func("TaskDispatcher.cancel_task")
     g = CFG(ct.node)
-    cl = [c for c in body_nodes(ct) if isinstance(c, ast.Call) and last(callname(c)) == "clear_timeout"]
-    ok = len(cl) == 1 and norm(cl[0].args[0]) == "task_id"
+    # the Wait arm clears the Wait's own timer (since fix 2930bfe the request arm clears the request's timer as well)
+    cl = [c for c in body_nodes(ct) if isinstance(c, ast.Call) and last(callname(c)) == "clear_timeout" and c.args and norm(c.args[0]) == "task_id"]
+    ok = len(cl) == 1
     if ok:
         gi = enclosing_ifs(tdm, cl[0], ct.node)
         ok = any(norm(i.test) == "task_type == 'Timeout'" and arm == "body" for i, arm in gi)
@@ -278,5 +279,7 @@ def run(chk, ctx):
     from . import round3
     round3.timer_cleared_only_on_completion(chk, ctx)
     round3.timer_delay_unmodified(chk, ctx)
+    from . import round5
+    round5.request_removal_clears_timer(chk, ctx)
     chk.assume("time.time() and datetime.strptime('%f') behave as documented (%f right-pads up to 6 digits)")
     chk.assume("units: *Seconds fields and .timestamp() are seconds; set_timeout/execute_task/Message.expiration take milliseconds")
